@@ -268,8 +268,9 @@ def replay_state(st: dict, out: dict, want_event: bool, want_rejects: bool) -> N
 
 def sql_mat_after_xfer(t, under_sql_mat=False) -> bool:
     """Matcher of open finding F8 on a projected real tree: a Materialization that
-    lives in a SQL engine (i.e. is wrapped by / wraps Select markers) with a
-    Transfer somewhere upstream of it."""
+    lives in a SQL engine (wraps a Select marker) whose upstream tree is REBUILT
+    by process(), i.e. contains a Transfer or a chain with a statically empty
+    branch (which process() prunes)."""
     if not isinstance(t, dict):
         return False
     k = t.get("k")
@@ -283,8 +284,17 @@ def sql_mat_after_xfer(t, under_sql_mat=False) -> bool:
     if k == "un":
         return sql_mat_after_xfer(t["t"], under_sql_mat)
     if k == "bin":
+        if under_sql_mat and t["op"].get("o") == "chain" and (_is_empty_leaf_sel(t["l"]) or _is_empty_leaf_sel(t["r"])):
+            return True
         return sql_mat_after_xfer(t["l"], under_sql_mat) or sql_mat_after_xfer(t["r"], under_sql_mat)
     return False
+
+
+def _is_empty_leaf_sel(t) -> bool:
+    """A (select-wrapped) statically empty leaf: the harness's doomed leaf is named Z."""
+    while isinstance(t, dict) and t.get("k") == "sel":
+        t = t["skip"]
+    return isinstance(t, dict) and t.get("k") == "leaf" and t.get("id") == "Z"
 
 
 def _is_noop(o: dict, rel) -> bool:
